@@ -270,11 +270,19 @@ func (a *Allocation) ListChannelBindings() []*ChannelBind {
 	return cs
 }
 
-// Refresh updates the allocations lifetime.
-func (a *Allocation) Refresh(lifetime time.Duration) {
+// Refresh updates the allocations lifetime. It reports false when the lifetime
+// had already run out: the timer has fired (the allocation is about to be
+// deleted, however long that takes) or Close has stopped it.
+func (a *Allocation) Refresh(lifetime time.Duration) bool {
 	if !a.lifetimeTimer.Reset(lifetime) {
-		a.log.Errorf("Failed to reset allocation timer for %v", a.fiveTuple)
+		// Too late, and Reset has armed the timer of an allocation that is over.
+		a.lifetimeTimer.Stop()
+		a.log.Debugf("Allocation %v had expired when it was to be refreshed", a.fiveTuple)
+
+		return false
 	}
+
+	return true
 }
 
 // AddressFamily returns the address family of the allocation (RFC 6156).
